@@ -352,3 +352,125 @@ def o4_1_witness_ok(w, out):
     if out.get('_rc') != 0: return False
     exp = _merge_ref(w['replay']); got = out.get('cursor', '').split(',')[:len(exp)]
     return got == exp
+
+
+# =============================================================== O4.2 DatabaseIterator
+def compositions(n):
+    if n == 0: yield []; return
+    for first in range(1, n + 1):
+        for rest in compositions(n - first): yield [first] + rest
+
+
+def o4_2_database_iterator(mir, tier):
+    """DatabaseIterator over an abstract inner merging iterator: it is positioned exactly where a cursor over the visible
+    (user key -> value) pairs at the iterator's sequence number would be."""
+    ops = {n: mir.method('DatabaseIterator', n, 'RainDbIterator') for n in ('seek', 'seek_to_first', 'seek_to_last', 'next', 'prev', 'is_valid', 'current')}
+    E_MAX = 3 if tier == 'quick' else 4
+    patterns = QUICK_PATTERNS if tier == 'quick' else [list(p) for L in (3, 4) for p in itertools.product(['first', 'last', 'seek', 'next', 'prev'], repeat=L) if p[0] in ('first', 'last', 'seek')]
+    res = Result('O4.2 DatabaseIterator vs cursor over the visible pairs', [f.path for f in ops.values()] + ['find_next_client_entry, find_prev_client_entry (inlined)'],
+                 'inner iterator = RainDbIterator contract over 1..%d sorted internal entries (free user keys, sequences, tags, values), every grouping of the entries into user keys; iterator sequence number free; '
+                 '%d cursor patterns of length <= 4 with a free seek target; read sampling summarised as a no-op' % (E_MAX, len(patterns)))
+    t0 = time.time()
+    opname = {'first': 'seek_to_first', 'last': 'seek_to_last', 'seek': 'seek', 'next': 'next', 'prev': 'prev'}
+    for n in range(1, E_MAX + 1):
+        for comp in compositions(n):
+            w = World(mir)
+            keys = [w.key('e%d' % i) for i in range(n)]; vals = [BitVec('val%d' % i, 8) for i in range(n)]
+            KE = [w.K(k) for k in keys]
+            snap = BitVec('iterator_sequence', 64); tgt = BitVec('target', 16)
+            groups, i0 = [], 0
+            for c in comp: groups.append(list(range(i0, i0 + c))); i0 += c
+            pre = list(w.pre) + [ULT(k[1], bv(MAXSEQ)) for k in KE] + [ULT(snap, bv(MAXSEQ))]
+            for g in groups:
+                pre += [KE[g[j]][0] == KE[g[0]][0] for j in range(1, len(g))] + [UGT(KE[g[j]][1], KE[g[j + 1]][1]) for j in range(len(g) - 1)]
+            pre += [ULT(KE[groups[j][0]][0], KE[groups[j + 1][0]][0]) for j in range(len(groups) - 1)]
+            m = len(groups)
+            # per group: visible?, value
+            gvis, gval, gkey = [], [], []
+            for g in groups:
+                vis, val = BoolVal(False), vals[g[-1]]
+                for j in reversed(g):       # oldest first so that the newest qualifying entry wins
+                    q = ULE(KE[j][1], snap)
+                    vis = If(q, KE[j][2] == bv(1), vis); val = If(q, vals[j], val)
+                gvis.append(vis); gval.append(val); gkey.append(KE[g[0]][0])
+            def sel(pos, arr):       # arr[pos] for a symbolic position
+                out = arr[-1]
+                for j in range(m - 2, -1, -1): out = If(pos == bv(j), arr[j], out)
+                return out
+            NONE = bv(99)
+            def first_from(lo_cond):  # smallest group index g with gvis[g] and lo_cond(g)
+                out = NONE
+                for g in range(m - 1, -1, -1): out = If(And(gvis[g], lo_cond(g)), bv(g), out)
+                return out
+            def last_upto(hi_cond):
+                out = NONE
+                for g in range(m): out = If(And(gvis[g], hi_cond(g)), bv(g), out)
+                return out
+            S = base_summaries(mir)
+            S.update(absiter.summaries(['<MergingIterator as RainDbIterator>::'], w.K))
+            S['$patterns'][r'DatabaseIterator::sample_read_stats_for_current_key'] = lib.unit
+            S['$patterns'][r'<Vec<u8> as Clone>::clone'] = lib.clone_deep
+            for pat in patterns:
+                ex = Exec(mir, S, loop_bound=n + 4)
+                it = mir.mk_struct('DatabaseIterator', db_state={'abstract': True}, compaction_worker='worker', direction=Enum('Forward', (), 'DbIterationDirection'),
+                                   inner_iter=absiter.make([(keys[i], vals[i]) for i in range(n)]), sequence_snapshot=snap, is_valid=BoolVal(False), rng='rng', distribution='dist',
+                                   bytes_until_read_sampling=bv(0), cached_user_key=Enum('None'), cached_value=Enum('None'))
+                env0 = {'$state': {}, '$it': it, '$t': tgt}
+                def argv(mm, upto, pat=pat, KE=KE, n=n):
+                    ents = sorted([(mval(mm, KE[i][1]), mval(mm, KE[i][0]), mval(mm, KE[i][2]), mval(mm, vals[i])) for i in range(n)])
+                    steps, snapped = [], False
+                    sv = mval(mm, snap)
+                    if all(e[0] > sv for e in ents): steps.append('S'); snapped = True
+                    for j, e in enumerate(ents):
+                        steps.append(('P%s=%02x' % (key_bytes(e[1]), e[3])) if e[2] == 1 else 'D%s' % key_bytes(e[1]))
+                        if not snapped and e[0] <= sv and (j + 1 == len(ents) or ents[j + 1][0] > sv): steps.append('S'); snapped = True
+                        if j % 2 == 0: steps.append('F')
+                    steps.append('U%s:%s@0' % ('.'.join(pat[:upto]), key_bytes(mval(mm, tgt))))
+                    return ['db_scenario'] + steps
+                def drive(env, pc, i, pos, first_call=False):
+                    # pos: symbolic group index of the reference cursor (NONE = invalid)
+                    if i == len(pat): ex.paths += 1; return
+                    op = pat[i]
+                    def after(ret, env2, pc2):
+                        if op == 'first': exp = first_from(lambda g: BoolVal(True))
+                        elif op == 'last': exp = last_upto(lambda g: BoolVal(True))
+                        elif op == 'seek': exp = first_from(lambda g: UGE(gkey[g], tgt))
+                        elif op == 'next': exp = first_from(lambda g: UGT(bv(g), pos))
+                        else: exp = last_upto(lambda g: ULT(bv(g), pos))
+                        obs_valid = ex.deref(env2, Ref('$it'))[mir.field('DatabaseIterator', 'is_valid')]
+                        label = 'database iterator: after %s the cursor differs from the cursor over the visible key-value pairs' % opname[op]
+                        def check_and_go(cur, env3, pc3, obs_valid=obs_valid):
+                            if cur is None: post = exp == NONE
+                            else:
+                                kv = cur.fields[0]
+                                ok_key = ex.deref(env3, kv[0]) == sel(exp, gkey); ok_val = ex.deref(env3, kv[1]) == sel(exp, gval)
+                                post = And(exp != NONE, ok_key, ok_val)
+                            ex.record_formula(label, pc3, Not(post))
+                            mm = ex.model(Not(post))
+                            if mm is not None:
+                                dbg = {'entries': [(mval(mm, KE[j][0]), mval(mm, KE[j][1]), mval(mm, KE[j][2]), mval(mm, vals[j])) for j in range(n)], 'iterator_sequence': mval(mm, snap), 'target': mval(mm, tgt),
+                                       'expected_group': mval(mm, exp), 'observed': None if cur is None else (mval(mm, ex.deref(env3, cur.fields[0][0])), mval(mm, ex.deref(env3, cur.fields[0][1])))}
+                                res.violations.append({'label': label, 'pattern': pat[:i + 1], 'grouping': comp, 'debug': dbg, 'replay': argv(mm, i + 1)}); return
+                            if cur is None: ex.paths += 1; return
+                            drive(env3, pc3, i + 1, exp)
+                        v = simplify(obs_valid) if not isinstance(obs_valid, bool) else BoolVal(obs_valid)
+                        from z3 import is_true as _t, is_false as _f
+                        if _f(v): return check_and_go(None, env2, pc2)
+                        if not _t(v): raise Inconclusive('symbolic validity flag')
+                        ex.run_fn(ops['current'], [Ref('$it')], env2, pc2, lambda cur, e3, p3: check_and_go(cur, e3, p3))
+                    args = [Ref('$it')] + ([Ref('$t')] if op == 'seek' else [])
+                    ex.run_fn(ops[opname[op]], args, env, pc, after)
+                ex.solver.push(); ex.solver.add(*pre)
+                try: drive(env0, list(pre), 0, NONE)
+                finally: ex.solver.pop()
+                res.absorb(ex)
+                for pc, msg, where in ex.panics:
+                    res.panic_paths += 1; res.violations.append({'label': 'panic path: ' + msg[:80], 'grouping': comp, 'pattern': pat, 'replay': None})
+    res.wall_s = time.time() - t0
+    if res.violations: res.status = 'violation'
+    return res
+
+
+def o4_2_confirm(v, out):
+    from .. import dbmodel
+    return dbmodel.compare(v['replay'][1:], out)
